@@ -265,6 +265,16 @@ struct FreeVarsVisitor {
 }
 
 impl Visitor for FreeVarsVisitor {
+    fn visit_block(&mut self, block: &Block) {
+        // Variables bound inside a block aren't bound after it, e.g.
+        // in the other branch of an `if`.
+        self.local_bindings.push(FxHashSet::default());
+        for expr in &block.exprs {
+            self.visit_expr(expr);
+        }
+        self.local_bindings.pop();
+    }
+
     fn visit_expr_variable(&mut self, symbol: &ast::Symbol) {
         if self.namespace.borrow().values.contains_key(&symbol.name) {
             return;
